@@ -12,8 +12,8 @@
 (*  Model   one action per real step: StartReq, Checkout (probe, discard-if-dropped), Send,      *)
 (*          Serve (scripted peer), RecvHead (http.client state machine: a prior unfinished       *)
 (*          response => ResponseNotReady), Preload, Return, Fail (ProtocolError -> discard ->    *)
-(*          retry / MaxRetryError), ReadBody(k) / ReadAll / StreamStep / Drain / Release /       *)
-(*          Close / Ignore, Drop (the caller lets go of the response object: IOBase.__del__ ->   *)
+(*          retry / MaxRetryError), ReadBody (read(k)) / ReadAll / StreamStep / Drain / Release  *)
+(*          / Close / Ignore, Drop (the caller lets go of the response object: IOBase.__del__ ->   *)
 (*          close()), ServerStray / ServerSmuggle / ServerEOF (peer activity on the idle         *)
 (*          connection before the next checkout), NextReq, Finish.                               *)
 (*                                                                                              *)
@@ -307,13 +307,13 @@ ReadOp(want, nextpc(_), swallow) ==
     /\ pc' = nextpc(x)
 
 ToDrop(x) == "drop"
-OpReadAll == /\ pc = "op" /\ ops[cur].kind = "read" /\ ReadOp(ALL, ToDrop, FALSE)
+ReadAll == /\ pc = "op" /\ ops[cur].kind = "read" /\ ReadOp(ALL, ToDrop, FALSE)
              /\ UNCHANGED <<nsock, peof, wh, nrq, cur, att, cs, plan, ops, arr, probes, outcome, yl, clean, hist>>
-OpPreloaded == /\ pc = "op" /\ ops[cur].kind = "preload" /\ pc' = "drop"
+Preloaded == /\ pc = "op" /\ ops[cur].kind = "preload" /\ pc' = "drop"
                /\ opres' = [opres EXCEPT ![cur] = "ok"]
                /\ UNCHANGED <<netv, resp, cur, att, cs, plan, ops, arr, probes, outcome, yl, clean, hist>>
 \* drain_conn(): read() with every error swallowed; nothing is delivered
-OpDrain == /\ pc = "op" /\ ops[cur].kind = "drain"
+Drain == /\ pc = "op" /\ ops[cur].kind = "drain"
            /\ LET r == cur
                   s == resp[r].s
                   x0 == ReadStep(resp[r], kb[s], peof[s], ALL)
@@ -323,11 +323,11 @@ OpDrain == /\ pc = "op" /\ ops[cur].kind = "drain"
            /\ UNCHANGED <<nsock, peof, wh, nrq, cur, att, cs, plan, ops, arr, probes, outcome, yl, clean, hist>>
 \* read(k) then release_conn()
 ToRelease(x) == IF x.res = "ok" THEN "release" ELSE "drop"
-OpReadK == /\ pc = "op" /\ ops[cur].kind = "readk" /\ ReadOp(ops[cur].k, ToRelease, FALSE)
+ReadBody == /\ pc = "op" /\ ops[cur].kind = "readk" /\ ReadOp(ops[cur].k, ToRelease, FALSE)
            /\ UNCHANGED <<nsock, peof, wh, nrq, cur, att, cs, plan, ops, arr, probes, outcome, yl, clean, hist>>
 \* stream(unit): one read step per iteration until the http.client response is closed
 ToStream(x) == IF x.res = "ok" /\ x.q.st = "open" THEN "op" ELSE "drop"
-OpStreamStep == /\ pc = "op" /\ ops[cur].kind = "stream" /\ ReadOp(1, ToStream, FALSE)
+StreamStep == /\ pc = "op" /\ ops[cur].kind = "stream" /\ ReadOp(1, ToStream, FALSE)
                 /\ UNCHANGED <<nsock, peof, wh, nrq, cur, att, cs, plan, ops, arr, probes, outcome, yl, clean, hist>>
 \* release_conn(): the connection goes back as it is
 Release ==
@@ -345,7 +345,7 @@ Release ==
     /\ pc' = "drop"
     /\ UNCHANGED <<nsock, kb, peof, wh, nrq, cur, att, cs, plan, ops, arr, probes, outcome, yl, clean, hist>>
 \* close(): the reader is closed, the connection is closed and handed back (closed)
-OpClose ==
+Close ==
     /\ pc = "op" /\ ops[cur].kind = "close"
     /\ LET r == cur
            s == resp[r].s
@@ -353,7 +353,7 @@ OpClose ==
        IF resp[r].conn THEN Commit(PutIn(CloseIn(st0, s), s)) ELSE Commit(st0)
     /\ opres' = [opres EXCEPT ![cur] = "ok"] /\ pc' = "drop"
     /\ UNCHANGED <<nsock, kb, peof, wh, nrq, cur, att, cs, plan, ops, arr, probes, outcome, yl, clean, hist>>
-OpIgnore ==
+Ignore ==
     /\ pc = "op" /\ ops[cur].kind = "ignore"
     /\ opres' = [opres EXCEPT ![cur] = "ok"] /\ pc' = "drop"
     /\ UNCHANGED <<netv, resp, cur, att, cs, plan, ops, arr, probes, outcome, yl, clean, hist>>
@@ -404,7 +404,7 @@ Finish == pc = "done" /\ pc' = "end" /\ UNCHANGED <<netv, resp, cur, att, cs, pl
 Done == pc = "end" /\ UNCHANGED vars
 
 Next == \/ StartReq \/ Checkout \/ Send \/ Serve \/ RecvHead \/ Preload \/ Return \/ Fail \/ Raw
-        \/ OpReadAll \/ OpPreloaded \/ OpDrain \/ OpReadK \/ OpStreamStep \/ Release \/ OpClose \/ OpIgnore
+        \/ ReadAll \/ Preloaded \/ Drain \/ ReadBody \/ StreamStep \/ Release \/ Close \/ Ignore
         \/ Drop \/ ServerStray \/ ServerEOF \/ NoAfter \/ NextReq \/ Finish \/ Done
 Spec == Init /\ [][Next]_vars
 
